@@ -20,8 +20,7 @@ Code anchors: files {files}; mechanisms: {mech}
 
 ## What to produce
 
-A *realistic* source change (the kind of slip a maintainer could make in a refactor or feature
-commit: 1-15 changed lines, in the anchored code or code it relies on) such that
+A *realistic* source change ({persona}: 1-15 changed lines, in the anchored code or code it relies on) such that
   1. every changed file still parses and `import guppylang, guppylang_internals` still works,
   2. the property is **violated** for some concrete input (program / call sequence) that you exhibit,
   3. it is NOT one of these already-tried ideas: {avoid}
@@ -48,7 +47,8 @@ Deliverables, in `/tmp/seed/{pid}/{k}/` (create the directory):
 
 Before you finish: run demo.py on the unpatched tree (switch with `git -C {wt} apply -R /tmp/seed/{pid}/{k}/patch.diff` and back with
 `git -C {wt} apply ...`; NEVER use `git stash`, it is shared between worktrees) and on the patched tree and make sure the exit codes are 0 and 1. Leave the worktree in the
-*patched* state. Finish with a 3-line summary. If you cannot find a change that meets all points
+*patched* state. If, while exploring, you notice that the UNPATCHED tree already violates the property for some input
+(a genuine existing bug), say so in your final summary with the input - that is valuable, but still deliver the seed. Finish with a 3-line summary. If you cannot find a change that meets all points
 within reasonable effort, say so plainly rather than delivering something weaker.
 '''
 AVOID={
@@ -76,6 +76,31 @@ AVOID={
  'C29':'dropping child labels in render_diagnostic; caching file contents in add_file',
  'C30':'swapping comparisons in __contains__/__and__',
 }
+AVOID3={
+ 'C01':'dropping preserve in TupleType.transform',
+ 'C05':'binding all operands of a chained comparison before any comparison (no short circuit)',
+ 'C06':'hoisting the override check of _check_assign_targets out of the leaf loop',
+ 'C07':'write-back only when the place itself is a subscript (instead of contains_subscript)',
+ 'C08':'comprehension uses filtered by inner_stats.assigned in VariableVisitor',
+ 'C09':'AssignmentAnalysis.eq comparing only the first component',
+ 'C10':'LivenessAnalysis.apply_bb computing surviving keys by set difference',
+ 'C11':'functools.cache on parse_py_func',
+ 'C12':'check_inst returning after the first type parameter',
+ 'C13':'compile_variable_idx subtracting all monomorphized params',
+ 'C14':'requires_drop ignoring type variables; TypeParam.to_hugr bound from can_be_linear',
+ 'C15':'skipping variants whose arity differs',
+ 'C16':'nat.__float__ lowered with convert_s',
+ 'C17':'nat constants lowered with signed IntVal',
+ 'C21':'reverse_binary_table mapping reflected dunders to themselves',
+ 'C22':'raise for double use only when the first use was a call argument',
+ 'C23':'deleting the mocks only when the user bound none of int/float/len',
+ 'C24':'_parse_kwargs setting flags for keywords given as False',
+ 'C28':'dropping random_seed from run_shots',
+ 'C29':'moving the prefix-lines clamp from render_snippet into span_lines',
+ 'C30':'hand-written non-lexicographic Loc.__lt__',
+ 'C32':'removing the positional-only parameter rejection',
+ 'C33':'saving the previous flag in one module-level variable',
+}
 AVOID2={
  'C01':'removing sort_vars from the tuple-sum rows of compile_bb',
  'C05':'not binding the first operand of a chained comparison to a temporary',
@@ -94,10 +119,11 @@ AVOID2={
 }
 pid,k=sys.argv[1],sys.argv[2]
 focus=sys.argv[3] if len(sys.argv)>3 else '(any anchored mechanism)'
+persona=sys.argv[4] if len(sys.argv)>4 else 'the kind of slip a maintainer could make in a refactor or feature commit'
 p=props[pid]
 wt=f'/tmp/wt/{pid}-{k}'
 a=p['anchors']
 txt=TEMPLATE.format(pid=pid,k=k,wt=wt,title=p['title'],statement=p['statement'],quant=p['quantifier']['text'],why=p['why_tests_cant'],
-  files=', '.join(a['files']), mech='; '.join(m['name'] for m in a.get('mechanism',[])), avoid=AVOID.get(pid,'(none)')+'; '+AVOID2.get(pid,''), focus=focus)
+  files=', '.join(a['files']), mech='; '.join(m['name'] for m in a.get('mechanism',[])), avoid=AVOID.get(pid,'(none)')+'; '+AVOID2.get(pid,'')+'; '+AVOID3.get(pid,''), focus=focus, persona=persona)
 open(f'/tmp/seedprompt/{pid}-{k}.md','w').write(txt)
 print(wt)
